@@ -1140,4 +1140,91 @@ def inQuantifiers : List String :=
   ["All <>",
    "Any ="]
 
+/-! ## the scope walk of field references (eval.go evalFieldReference) and the wildcards of the select list
+
+  reviewed 2026-09-24 on a4e4825 against Model/RelNames.lean (`walkBy` / `walkStep`) and `starFields` / `viewStarFields`:
+  * the records of the queries are visited from the innermost outwards; a scope whose header resolves the reference
+    (SearchIndex: FieldIndex for names, FieldNumberIndex for `t.2`) answers and ends the walk, an ambiguous scope ends it
+    with that error, any other failure passes on to the enclosing record; no scope: "field does not exist";
+    the per-record cache only repeats an earlier successful SearchIndex of the same expression in the same scope;
+  * `*` = Header.TableColumns (the IsFromTable fields in header order, qualified by their view when they have one),
+    `view.*` = those of them whose view is spelled exactly like the qualifier. -/
+
+/-- `evalFieldReference` as a whole -/
+def evalFieldReferenceBody : List String :=
+  ["varpvalue.Primary",
+   "for(i:range:scope.Records){",
+   "if(idx,ok:=scope.Records[i].cache.Get(expr);ok){",
+   "if(scope.Records[i].IsInRange()){",
+   "p=scope.Records[i].view.RecordSet[scope.Records[i].recordIndex][idx][0]",
+   "}else{",
+   "p=value.NewNull()",
+   "}",
+   "break",
+   "}",
+   "idx,err:=scope.Records[i].view.Header.SearchIndex(expr)",
+   "if(err==nil){",
+   "if(scope.Records[i].view.isGrouped&&scope.Records[i].view.Header[idx].IsFromTable&&!scope.Records[i].view.Header[idx].IsGroupKey){",
+   "returnnil,NewFieldNotGroupKeyError(expr)",
+   "}",
+   "if(scope.Records[i].IsInRange()){",
+   "p=scope.Records[i].view.RecordSet[scope.Records[i].recordIndex][idx][0]",
+   "}else{",
+   "p=value.NewNull()",
+   "}",
+   "scope.Records[i].cache.Add(expr,idx)",
+   "break",
+   "}elseif(err==errFieldAmbiguous){",
+   "returnnil,NewFieldAmbiguousError(expr)",
+   "}",
+   "}",
+   "if(p==nil){",
+   "returnnil,NewFieldNotExistError(expr)",
+   "}",
+   "returnp,nil"]
+
+/-- `View.Select`: the expansion of `*` and `view.*` into one field per table column -/
+def parseWildcardBody : List String :=
+  ["list:=make([]parser.Field,0,len(fields))",
+   "columns:=view.Header.TableColumns()",
+   "for(_,v:range:fields){",
+   "field:=v.(parser.Field)",
+   "if(_,ok:=field.Object.(parser.AllColumns);ok){",
+   "for(_,c:range:columns){",
+   "list=append(list,parser.Field{Object:c,})",
+   "}",
+   "continue",
+   "}",
+   "if(fieldReference,ok:=field.Object.(parser.FieldReference);ok){",
+   "if(_,ok:=fieldReference.Column.(parser.AllColumns);ok){",
+   "viewName:=fieldReference.View.Literal",
+   "for(_,c:range:columns){",
+   "cref:=c.(parser.FieldReference)",
+   "if(cref.View.Literal!=viewName){",
+   "continue",
+   "}",
+   "list=append(list,parser.Field{Object:c,})",
+   "}",
+   "continue",
+   "}",
+   "}",
+   "list=append(list,field)",
+   "}",
+   "returnlist"]
+
+/-- `Header.TableColumns`: the columns `*` stands for -/
+def tableColumnsBody : List String :=
+  ["columns:=make([]parser.QueryExpression,0,h.Len())",
+   "for(_,f:range:h){",
+   "if(!f.IsFromTable){",
+   "continue",
+   "}",
+   "fieldRef:=parser.FieldReference{Column:parser.Identifier{Literal:f.Column},}",
+   "if(0<len(f.View)){",
+   "fieldRef.View=parser.Identifier{Literal:f.View}",
+   "}",
+   "columns=append(columns,fieldRef)",
+   "}",
+   "returncolumns"]
+
 end Csvq.Ref
